@@ -48,14 +48,6 @@ def cpulist(mask):
     return ",".join(out)
 
 
-def parsed_eligible(mask, ncpu):
-    """What the code under test takes for 'eligible' (first token of the list when it is a range, else all CPUs)."""
-    m = re.match(r"(\d+)-(\d+)", cpulist(mask))
-    if m:
-        return list(range(int(m.group(1)), int(m.group(2)) + 1))
-    return list(range(ncpu))
-
-
 class SimKernel:
     def __init__(self, case):
         self.ncpu = case["ncpu"]
